@@ -148,10 +148,13 @@ def _join_parallel(contours, tol):
     return [c for c in out if c["segs"]]
 
 
-def fill_same(a_ops, b_ops, tol, acc=None):
-    """Equal up to representation of the filled outline. Returns (ok, detail)."""
-    A = [c for c in geom.canon(a_ops, tol=tol) if c["segs"]]
-    B = [c for c in geom.canon(b_ops, tol=tol) if c["segs"]]
+def fill_same(a_ops, b_ops, tol, acc=None, degen_tol=0.0):
+    """Equal up to representation of the filled outline. Returns (ok, detail).
+    tol: coordinate tolerance; degen_tol: length below which a segment counts as zero-length
+    (0 for before/after comparisons: the rewrites only drop exactly zero-length segments, and
+    fontTools' arithmetic on 16.16 operands is exact in doubles)."""
+    A = [c for c in geom.canon(a_ops, tol=degen_tol) if c["segs"]]
+    B = [c for c in geom.canon(b_ops, tol=degen_tol) if c["segs"]]
     ok, detail = geom.same_geometry(A, B, tol=tol)
     if ok:
         return True, ""
@@ -160,7 +163,7 @@ def fill_same(a_ops, b_ops, tol, acc=None):
         if acc is not None:
             acc.label("equal:after-collinear-merge")
         return True, ""
-    A2, B2 = _join_parallel(_lineify(A), tol), _join_parallel(_lineify(B), tol)
+    A2, B2 = _join_parallel(_lineify(A), degen_tol), _join_parallel(_lineify(B), degen_tol)
     ok, detail2 = geom.same_geometry(A2, B2, tol=tol)
     if ok:
         if acc is not None:
@@ -705,7 +708,7 @@ def _hb_compare(acc, clause, data, ref_ops, tols, case, where, hmtx=None):
         tol = tols[gid] if tols else 1e-6
         ok, d = exact_same(want, ops, tol)  # HarfBuzz keeps zero-length segments and drops lone movetos
         if not ok:
-            ok, d = fill_same(want, ops, tol)
+            ok, d = fill_same(want, ops, tol, degen_tol=tol)
         if not ok:
             acc.fail(clause, "harfbuzz-outline", "%s glyph %d: %s" % (where, gid, d), case, where)
         if hmtx is not None and hbf.h_advance(gid) != hmtx[gid]:
@@ -723,6 +726,7 @@ def check_font_case(acc, case, do_program_legs=True):
     names = gen_t2.glyph_names(ng)
     results = []
     refs, tols, hbtols, hmtx = [], [], [], []
+    subr_runs = []
     priv_sub = _private(dwx, nwx, _subr_objects(lsub))
     gs_objs = _subr_objects(gsub)
     any_subr = False
@@ -734,6 +738,7 @@ def check_font_case(acc, case, do_program_legs=True):
         if ra.problems or rb.problems or ra.ops != rb.ops or ra.width != rb.width or rb.max_depth > 48:
             raise HarnessError("generator: outlined program is not equivalent/well-formed: %r %r %s" % (ra.problems[:2], rb.problems[:2], short(sub, 300)))
         refs.append(ra)
+        subr_runs.append(rb)
         tols.append(_tol(flat, ra.ops))
         hbtols.append(_hb_tol(flat, ra.ops))
         hmtx.append(otRound(ra.width))
@@ -851,6 +856,20 @@ def check_font_case(acc, case, do_program_legs=True):
             convertCFFToCFF2(f)
         _compare_font(acc, "CFF->CFF2", base, f, case, True, tols, None, hmtx, forbid=("endchar", "return"), where="CFF->CFF2", hb_check=hb_after("CFF->CFF2"), recalcBBoxes=False)
         _glyphset_widths(acc, "CFF->CFF2", f, hmtx, case)
+        # the same conversion back on a freshly loaded CFF2 file (the command-line flow)
+        if any(r_.used_local for r_ in subr_runs):
+            acc.exclude("CFF2->CFF on a freshly loaded font that uses local subrs (finding: lazily loaded Subrs INDEX is read with the CFF1 header layout)")
+        else:
+            try:
+                with acc.guard("CFF2->CFF(fresh)", case):
+                    from fontTools.cffLib.CFF2ToCFF import convertCFF2ToCFF
+
+                    fresh = _load(_save(f), recalcBBoxes=False)
+                    convertCFF2ToCFF(fresh)
+                base2 = [(r.ops, float(h)) for r, h in zip(refs, hmtx)]
+                _compare_font(acc, "CFF2->CFF(fresh)", base2, fresh, case, False, tols, "hmtx", hmtx, where="CFF->CFF2->save->load->CFF", recalcBBoxes=False)
+            except Allowed:
+                pass
         try:
             with acc.guard("CFF2->CFF", case):
                 from fontTools.cffLib.CFF2ToCFF import convertCFF2ToCFF
@@ -968,7 +987,10 @@ def check_corpus_font(acc, fid, tier, seed, only=None):
     except CaseTimeout:
         raise
     except Exception as e:
-        acc.exclude("corpus-font-unreadable:%s" % type(e).__name__)
+        if "must not have an initial width" in str(e):
+            acc.exclude("corpus-cff2-master-with-width-operand(malformed input)")
+        else:
+            acc.exclude("corpus-font-unreadable:%s" % type(e).__name__)
         return
     fmt = "cff" if tag == "CFF " else "cff2"
     variable = "fvar" in f or hasattr(_top(f)[0], "VarStore")
@@ -1031,6 +1053,17 @@ def check_corpus_font(acc, fid, tier, seed, only=None):
 
         g = leg("CFF->CFF2", convertCFFToCFF2, forbid=("endchar",), widths=None, recalc=False)
         if g is not None and hmtx is not None:
+            if any(c["lsubrs"] for c in cur):
+                acc.exclude("CFF2->CFF on a freshly loaded font that uses local subrs (finding: lazily loaded Subrs INDEX is read with the CFF1 header layout)")
+            else:
+                try:
+                    with acc.guard("CFF2->CFF(fresh)", case0):
+                        fresh = _load(_save(g), False)
+                        convertCFF2ToCFF(fresh)
+                    b2 = [(ops, h) for (ops, _), h in zip(base, hmtx)]
+                    _compare_font(acc, "CFF2->CFF(fresh)", b2, fresh, case0, False, tols, "hmtx", hmtx, where="CFF->CFF2->save->load->CFF", base_kinds=kinds, recalcBBoxes=False, saved_roundtrip=False)
+                except Allowed:
+                    pass
             try:
                 with acc.guard("CFF2->CFF", case0):
                     convertCFF2ToCFF(g)
@@ -1151,6 +1184,18 @@ def jobs(tier, seed):
         J.append(dict(kind="corpus", name="corpus:" + fid, fid=fid, seed=seed, tier=tier))
     # slow jobs first
     J.sort(key=lambda j: 0 if j["kind"] == "corpus" else 1)
+    import os
+
+    only = os.environ.get("VERIF_C12_ONLY")  # sensitivity runs: e.g. "fonts:12,progs" = 12 font jobs and all program jobs
+    if only:
+        want = dict((p.split(":") + [None])[:2] for p in only.split(","))
+        out, seen = [], {}
+        for j in J:
+            if j["kind"] in want:
+                seen[j["kind"]] = seen.get(j["kind"], 0) + 1
+                if want[j["kind"]] is None or seen[j["kind"]] <= int(want[j["kind"]]):
+                    out.append(j)
+        J = out
     return J
 
 
@@ -1198,8 +1243,11 @@ def _cff2_cases():
 
 
 def run_job(job):
+    import time
+
     acc = Acc()
     k = job["kind"]
+    cpu0 = time.process_time()
     if k == "fonts":
         hyp_collect(acc, gen_t2.fonts(), _body_font, job["n"], job["seed"])
     elif k == "progs":
@@ -1214,10 +1262,15 @@ def run_job(job):
             acc.inconclusive += 1
     else:
         raise HarnessError("unknown job kind %r" % k)
+    acc.extra["cpu_seconds_by_job_kind"] = {k: round(time.process_time() - cpu0, 2)}
     return acc
 
 
 def finish(total, tier, seed):
+    import os
+
+    if os.environ.get("VERIF_C12_ONLY"):
+        return
     missing = [f for f in REQUIRED_FORMS if not total.labels.get("op:" + f)]
     missing += [l for l in REQUIRED_OTHER if not total.labels.get(l)]
     if tier == "thorough":
